@@ -291,3 +291,39 @@ pub fn child(tier: Tier, out: &str, profile: &str, shard: usize, nshards: usize)
   std::fs::write(out, serde_json::to_string(&v).unwrap()).expect("write child result");
   0
 }
+
+/// replay of a read-only case recorded by the crash guard: the same call on a freshly prepared read-only arena
+pub fn replay_ro(case: &Value) -> i32 {
+  let cfg: Cfg = serde_json::from_value(case["cfg"].clone()).expect("cfg");
+  let op: Op = serde_json::from_value(case["op"].clone()).expect("op");
+  let copy = case["copy"].as_bool().unwrap_or(false);
+  fn go<A: Subject>(cfg: &Cfg, op: Op, copy: bool) -> i32 {
+    let p = fresh_path("c04ro-replay");
+    {
+      let a: A = build(cfg, Some(&p)).unwrap();
+      let mut b = a.alloc_bytes(40).unwrap();
+      unsafe { rarena_allocator::Buffer::detach(&mut b) };
+    }
+    let o = cfg.options().with_read(true);
+    let a: A = unsafe { if copy { o.map_copy_read_only(&p) } else { o.map(&p) } }.unwrap();
+    let mut r = Runner::<A>::from_arena(cfg, Box::new(a), None);
+    let mut v = vec![];
+    println!("replay c04-ro: {} on a read-only {} arena", op.short(), A::FLAVOUR);
+    r.step(op, O_ERRSTATE, &mut v);
+    for x in &v {
+      println!("  !! {}: {}", x.class, x.msg);
+    }
+    std::mem::forget(r.into_arena());
+    let _ = std::fs::remove_file(&p);
+    if v.is_empty() {
+      0
+    } else {
+      1
+    }
+  }
+  if case["flavour"].as_str() == Some("sync") {
+    go::<rarena_allocator::sync::Arena>(&cfg, op, copy)
+  } else {
+    go::<rarena_allocator::unsync::Arena>(&cfg, op, copy)
+  }
+}
